@@ -12,6 +12,7 @@
 #include <fstream>
 #include <functional>
 #include <limits>
+#include <atomic>
 #include <map>
 #include <memory>
 #include <mutex>
@@ -54,14 +55,50 @@ class MemSource : public ZoneInfoSource {
   std::size_t pos_;
 };
 
+// A source that, right after delivering a larger piece of its data, loads ANOTHER zone (the load mutex is recursive to
+// allow exactly this: sources that consult other zones, links resolved by loading their target).  The outer zone is
+// still judged against its own bytes alone: nothing of the nested load may show in it.
+static std::string g_nest_small, g_nest_prev;   // what nested names serve: a minimal image / the previous file's bytes
+static std::atomic<long> g_nested_loads{0};
+class NestSource : public MemSource {
+ public:
+  NestSource(const std::string& d, const std::string& key) : MemSource(d), key_(key), n_(0) {}
+  std::size_t Read(void* ptr, std::size_t size) override {
+    std::size_t r = MemSource::Read(ptr, size);
+    if (size > 44 && n_ < 2) {
+      time_zone other;
+      (void)load_time_zone(key_ + "@n" + std::to_string(n_++), &other);
+      ++g_nested_loads;
+    }
+    return r;
+  }
+ private:
+  std::string key_;
+  int n_;
+};
+
 static std::unique_ptr<ZoneInfoSource> Factory(
     const std::string& name,
     const std::function<std::unique_ptr<ZoneInfoSource>(const std::string& name)>& fallback) {
   std::lock_guard<std::mutex> l(g_mu);
   ++g_factory_calls;
+  size_t at = name.find("@n");
+  if (at != std::string::npos)
+    return std::unique_ptr<ZoneInfoSource>(new MemSource((name.back() == '0' && !g_nest_prev.empty()) ? g_nest_prev : g_nest_small));
   auto it = g_files.find(name);
   if (it == g_files.end()) return nullptr;
+  // every third file is served by a nesting source ("V/<idx>/...")
+  if (name.compare(0, 2, "V/") == 0 && atoi(name.c_str() + 2) % 3 == 0)
+    return std::unique_ptr<ZoneInfoSource>(new NestSource(it->second, name));
   return std::unique_ptr<ZoneInfoSource>(new MemSource(it->second));
+}
+// a minimal version-2 image: no transitions, one type (+2 h "BBB"), footer BBB-2
+static std::string minimal_image() {
+  std::string blk;
+  auto be32 = [](uint32_t v) { std::string x(4, '\0'); x[0] = (char)(v >> 24); x[1] = (char)(v >> 16); x[2] = (char)(v >> 8); x[3] = (char)v; return x; };
+  std::string head = std::string("TZif2") + std::string(15, '\0') + be32(0) + be32(0) + be32(0) + be32(0) + be32(1) + be32(4);
+  std::string data = be32(7200) + std::string(1, '\0') + std::string(1, '\0') + std::string("BBB\0", 4);
+  return head + data + head + data + "\nBBB-2\n";
 }
 namespace cctz_extension {
 ZoneInfoSourceFactory zone_info_source_factory = Factory;
@@ -545,6 +582,7 @@ int main(int argc, char** argv) {
     int sh = 0;
     for (int i = 1; i < nsh; ++i) if (shard_events[i] < shard_events[sh]) sh = i;
     ++idx;
+    if (g_nest_small.empty()) g_nest_small = minimal_image();
     std::string key = "V/" + std::to_string(idx) + "/" + name;
     { std::lock_guard<std::mutex> l(g_mu); g_files[key] = bytes; }
     Ctx c{files[sh], ++zcount[sh], time_zone(), 0};
@@ -626,7 +664,7 @@ int main(int argc, char** argv) {
     alarm(0);
     total += c.events;
     shard_events[sh] += c.events + 50;
-    { std::lock_guard<std::mutex> l(g_mu); g_files.erase(key); }
+    { std::lock_guard<std::mutex> l(g_mu); g_files.erase(key); if (bytes.size() < 8192) g_nest_prev = bytes; }
   }
   // the library's built-in fixed-offset zones (no zone data): +-24 h, sub-minute, UTC
   if (has("fixed")) {
@@ -670,6 +708,6 @@ int main(int argc, char** argv) {
     }
   }
   for (FILE* f : files) fclose(f);
-  fprintf(stderr, "drv_zone: %d zones (%d loaded), %llu events\n", idx, loaded, (unsigned long long)total);
+  fprintf(stderr, "drv_zone: %d zones (%d loaded), %llu events, %ld nested loads from inside sources\n", idx, loaded, (unsigned long long)total, g_nested_loads.load());
   return 0;
 }
